@@ -31,11 +31,31 @@ class AsGeneral(torch.nn.Module):
         return g
 
 
+class RowScaled(torch.nn.Module):
+    """the same SDE with the diffusion of batch row b multiplied by a per-row factor: state-independent (additive) noise
+    need not be the same for every sample of the batch (per-sample conditioning)"""
+
+    def __init__(self, base, scale):
+        super().__init__()
+        self.base = base
+        self.scale = scale
+        self.sde_type = base.sde_type
+        self.noise_type = base.noise_type
+
+    def f(self, t, y):
+        return self.base.f(t, y)
+
+    def g(self, t, y):
+        g = self.base.g(t, y)
+        return g * self.scale.reshape((-1,) + (1,) * (g.dim() - 1))
+
+
 def scenario(task):
     import torchsde
     st, method, nt, d, m, nsteps = task[:6]
     degy = task[6] if len(task) > 6 else 2
     adaptive = task[7] if len(task) > 7 else None          # (rtol, atol): adaptive stepping on the control-flow path of the base point
+    NB = task[8] if len(task) > 8 else 1                    # batch size; > 1: per-row diffusion scale
     mm = e1.noise_dim(nt, d, m)
     outs = []
     meshes = []
@@ -44,9 +64,11 @@ def scenario(task):
     for general in (False, True):
         mk = sdes.Maker(symbolic=True, seed=61)
         base = sdes.PolySDE(mk, st, nt, d=d, m=mm, degt=1, degy=degy)
+        if NB > 1:
+            base = RowScaled(base, mk('rowscale', (NB,), values=1.0 + 0.5 * np.arange(NB)))
         sde = AsGeneral(base) if general else base
-        bm = sdes.KeyedBM(mk, 1, mm, levy=sdes.levy_for(method))
-        y0 = mk('y0', (1, d), values=0.3 + 0.1 * np.arange(d).reshape(1, d))
+        bm = sdes.KeyedBM(mk, NB, mm, levy=sdes.levy_for(method))
+        y0 = mk('y0', (NB, d), values=0.3 + 0.1 * np.arange(NB * d).reshape(NB, d))
         ys = torchsde.sdeint(sde, y0, torch.tensor(ts, dtype=torch.float64), bm=bm, method=method, dt=0.1, **kw)
         validate(ys, mk.env, 1e-8)
         outs.append(ys)
@@ -147,6 +169,10 @@ def tasks_for(tier):
     # adaptive stepping: both declarations must walk the same mesh (the controller may depend on the error estimate only)
     for nt in ('diagonal', 'additive'):
         T.append(('ito', 'euler', nt, 1, 2, 2, 1, (1e-2, 1e-2)))
+    # batch of two rows whose diffusions differ by a per-row factor (state-independent noise need not be batch-independent)
+    for st, method in (('ito', 'euler'), ('stratonovich', 'midpoint'), ('stratonovich', 'reversible_heun')):
+        for nt in ('additive', 'scalar', 'diagonal'):
+            T.append((st, method, nt, 1, 2, 1, 1, None, 2))
     if tier != 'quick':
         for st, ms in METHODS.items():
             for method in ms:
@@ -166,7 +192,7 @@ def run(ctx):
     tasks = tasks_for(ctx.tier)
     tw = 0
     for t, (st_, res) in zip(tasks, pmap(scenario, tasks)):
-        name = f"{t[0]},{t[1]}: {t[2]} vs general embedding d={t[3]} steps={t[5]}" + (f" adaptive rtol=atol={t[7][0]}" if len(t) > 7 and t[7] else "")
+        name = f"{t[0]},{t[1]}: {t[2]} vs general embedding d={t[3]} steps={t[5]}" + (f" adaptive rtol=atol={t[7][0]}" if len(t) > 7 and t[7] else "") + (f" batch={t[8]} per-row diffusion" if len(t) > 8 else "")
         if st_ != 'ok':
             ctx.inconc(name, str(res)[:500]); continue
         ctx.paths += 1; ctx.queries += res['queries']; ctx.solver_s += res['solver_s']; ctx.validated += 2
@@ -218,6 +244,7 @@ def replay(data):
     st, method, nt, d, m, nsteps = task[:6]
     degy = task[6] if len(task) > 6 else 2
     adaptive = task[7] if len(task) > 7 else None
+    NB = task[8] if len(task) > 8 else 1
     kw = dict(adaptive=True, rtol=adaptive[0], atol=adaptive[1], dt_min=1e-4) if adaptive else {}
     mm = e1.noise_dim(nt, d, m)
     ts = [0.0, 0.07, 0.1] if nsteps == 1 else [0.0, 0.13, 0.2]
@@ -227,9 +254,11 @@ def replay(data):
     for general in (False, True):
         mk = sdes.Maker(symbolic=False, seed=61)
         base = sdes.PolySDE(mk, st, nt, d=d, m=mm, degt=1, degy=degy)
+        if NB > 1:
+            base = RowScaled(base, torch.tensor(1.0 + 0.5 * np.arange(NB)))
         sde = AsGeneral(base) if general else base
-        bm = torchsde.BrownianInterval(0., ts[-1], size=(1, mm), dtype=torch.float64, entropy=5, levy_area_approximation=sdes.levy_for(method))
-        y0 = torch.tensor(0.3 + 0.1 * np.arange(d).reshape(1, d))
+        bm = torchsde.BrownianInterval(0., ts[-1], size=(NB, mm), dtype=torch.float64, entropy=5, levy_area_approximation=sdes.levy_for(method))
+        y0 = torch.tensor(0.3 + 0.1 * np.arange(NB * d).reshape(NB, d))
         outs.append(torchsde.sdeint(sde, y0, torch.tensor(ts, dtype=torch.float64), bm=bm, method=method, dt=0.1, **kw))
     err = float((outs[0] - outs[1]).abs().max())
     print('replay C17: max abs difference', err)
